@@ -243,6 +243,99 @@ func c08Case(c *core.Case) {
 		c.NonTrivial("directed:" + src + kind)
 		return
 	}
+	if c.Index%50 == 3 {
+		// directed: one attribute read by two specs, one of which requires it (in
+		// either order, at the top or inside a block, in both syntaxes): a body
+		// without the attribute is in error, a body with it decodes to it twice
+		req := &hcldec.AttrSpec{Name: "a", Type: cty.Number, Required: true}
+		opt := &hcldec.AttrSpec{Name: "a", Type: cty.Number}
+		var inner hcldec.Spec
+		shape := gen.Pick(r, []string{"tuple(opt,req)", "tuple(req,opt)", "default(opt,req)", "object", "tuple(opt,opt,req)", "tuple(default(opt,literal),req)"})
+		switch shape {
+		case "tuple(opt,req)":
+			inner = hcldec.TupleSpec{opt, req}
+		case "tuple(req,opt)":
+			inner = hcldec.TupleSpec{req, opt}
+		case "default(opt,req)":
+			inner = &hcldec.DefaultSpec{Primary: opt, Default: req}
+		case "object":
+			inner = hcldec.ObjectSpec{"x": opt, "y": req, "z": opt}
+		case "tuple(opt,opt,req)":
+			inner = hcldec.TupleSpec{opt, opt, req}
+		default:
+			inner = hcldec.TupleSpec{&hcldec.DefaultSpec{Primary: opt, Default: &hcldec.LiteralSpec{Value: cty.NumberIntVal(7)}}, req}
+		}
+		present := gen.Chance(r, 0.5)
+		inBlock := gen.Chance(r, 0.5)
+		asJSON := gen.Chance(r, 0.4)
+		spec := inner
+		if inBlock {
+			spec = &hcldec.BlockSpec{TypeName: "b", Nested: inner, Required: true}
+		}
+		var src string
+		switch {
+		case asJSON && inBlock && present:
+			src = `{"b": {"a": 5}}`
+		case asJSON && inBlock:
+			src = `{"b": {}}`
+		case asJSON && present:
+			src = `{"a": 5}`
+		case asJSON:
+			src = `{}`
+		case inBlock && present:
+			src = "b {\n  a = 5\n}\n"
+		case inBlock:
+			src = "b {\n}\n"
+		case present:
+			src = "a = 5\n"
+		}
+		c.SetInput(fmt.Sprintf("%s\nSPEC: %s, in a block: %v", src, shape, inBlock))
+		var body hcl.Body
+		if asJSON {
+			jf, jd := hcljson.Parse([]byte(src), "d.json")
+			if jd.HasErrors() {
+				panic("C08 directed JSON body does not parse: " + src)
+			}
+			body = jf.Body
+		} else {
+			f, pd := hclsyntax.ParseConfig([]byte(src), "d.hcl", hcl.InitialPos)
+			if pd.HasErrors() {
+				panic("C08 directed body does not parse: " + src)
+			}
+			body = f.Body
+		}
+		val, diags := hcldec.Decode(body, spec, nil)
+		c.Evals(1)
+		c.Count("directed:attribute-read-by-two-specs/" + shape)
+		if errs := val.Type().TestConformance(hcldec.ImpliedType(spec)); len(errs) > 0 {
+			c.Violation("type-nonconformance/attribute-read-by-two-specs", fmt.Sprintf("%v\nvalue %s\ndiagnostics: %s", errs, valStr(val), diagStr(diags)), nil)
+			return
+		}
+		if !present && !diags.HasErrors() {
+			c.Violation("violation-not-reported/required-attribute-read-by-two-specs/"+shape, fmt.Sprintf("the body has no argument a, one of the specs that read it requires it, and decoding reports no error; value %s", valStr(val)), nil)
+			return
+		}
+		if present {
+			if diags.HasErrors() {
+				c.Violation("spurious-error/attribute-read-by-two-specs/"+shape, fmt.Sprintf("the argument is present but decoding reports: %s", diagStr(diags)), nil)
+				return
+			}
+			five := 0
+			cty.Walk(val, func(p cty.Path, v cty.Value) (bool, error) {
+				if v.Type() == cty.Number && v.IsKnown() && !v.IsNull() && v.RawEquals(cty.NumberIntVal(5)) {
+					five++
+				}
+				return true, nil
+			})
+			wantFive := map[string]int{"tuple(opt,req)": 2, "tuple(req,opt)": 2, "default(opt,req)": 1, "object": 3, "tuple(opt,opt,req)": 3, "tuple(default(opt,literal),req)": 2}[shape]
+			if five != wantFive {
+				c.Violation("value-differs/attribute-read-by-two-specs/"+shape, fmt.Sprintf("a = 5 read by %s gives %s", shape, valStr(val)), nil)
+				return
+			}
+		}
+		c.NonTrivial("directed:" + src + shape + fmt.Sprint(inBlock))
+		return
+	}
 	if c.Index%50 == 2 {
 		// directed: blocks generated by a dynamic block with too few, the right number of, or too
 		// many labels, under every spec that reads labels: an error (or the value), never a panic
